@@ -305,6 +305,10 @@ pub fn run<L: LmsSet, L2: LmsSet>(t: &mut Tape, _cfg: &Cfg, out: &mut RunOut) {
     let mut exhausted_seen = 0u32;
     let mut leaves_signed = [false; 64];
     let mut healed = !faulty;
+    // bounded liveness: a request that first arrives after the faults stopped must be answered (a released
+    // signature, or None from an exhausted key) before the run ends
+    let mut first_seen: Vec<Option<u64>> = vec![None; nreq as usize];
+    let mut answered: Vec<bool> = vec![false; nreq as usize];
 
     let mut q: Queue<Ev> = Queue::new();
     let mut at = 5 * MS;
@@ -332,6 +336,9 @@ pub fn run<L: LmsSet, L2: LmsSet>(t: &mut Tape, _cfg: &Cfg, out: &mut RunOut) {
             }
             Ev::Request(r) => {
                 out.sched("req", r, 0);
+                if first_seen[r as usize].is_none() {
+                    first_seen[r as usize] = Some(q.now);
+                }
                 if !up || inflight.is_some() {
                     queue_reqs.push(r);
                     continue;
@@ -403,6 +410,7 @@ pub fn run<L: LmsSet, L2: LmsSet>(t: &mut Tape, _cfg: &Cfg, out: &mut RunOut) {
                                 }
                                 ram = Some(sk);
                                 inflight = None;
+                                answered[r as usize] = true;
                                 out.ops_completed += 1;
                                 if let Some(nr) = queue_reqs.first().cloned() {
                                     queue_reqs.remove(0);
@@ -532,6 +540,7 @@ pub fn run<L: LmsSet, L2: LmsSet>(t: &mut Tape, _cfg: &Cfg, out: &mut RunOut) {
                         let lq = u32::from_be_bytes([sig[0], sig[1], sig[2], sig[3]]);
                         out.ev(format_args!("req{} RELEASE leaf {}", rr, lq));
                         released.push((lq, rr));
+                        answered[rr as usize] = true;
                         released_sigs.push((sig.clone(), msg.clone()));
                         out.ops_completed += 1;
                         out.probe("probe.lms.signature_released");
@@ -658,6 +667,20 @@ pub fn run<L: LmsSet, L2: LmsSet>(t: &mut Tape, _cfg: &Cfg, out: &mut RunOut) {
                         format!("altered ({}) signature or message accepted: sig {} (genuine {}) msg {} (genuine {})", how, hex_abbrev(&sig), hex_abbrev(&orig_sig), hex_abbrev(&msg), hex_abbrev(&orig_msg)),
                     );
                 }
+            }
+        }
+    }
+
+    // ---- bounded liveness
+    let heal_time = if faulty { heal_at } else { 0 };
+    for r in 0..nreq as usize {
+        if let Some(ts) = first_seen[r] {
+            if ts >= heal_time && !answered[r] {
+                out.violate(
+                    "C16",
+                    format!("{}/liveness:request_never_answered", eng),
+                    format!("request {} arrived at {}us, after the faults stopped at {}us, and was never answered (no signature released, no None)", r, ts, heal_time),
+                );
             }
         }
     }
